@@ -120,7 +120,15 @@ def arange(*a):
     else:
         raise Unsupported('arange with step')
     if lo.sort() != I or hi.sort() != I:
-        raise Unsupported('arange over reals')
+        # np.arange(lo, hi) over reals, unit step: lo, lo+1, ... below hi   (ASSUMED: length ceil(hi - lo))
+        lo_, hi_ = to_real(lo), to_real(hi)
+        if not Ctx.spec:
+            C().oblige('arange-nonnegative-length', hi_ >= lo_, 'safety')
+        from .core import _ceil_int
+        n = _ceil_int(hi_ - lo_)
+        r = SArr((n,), lambda i: lo_ + z3.ToReal(i), 'f')
+        r.affine = lo_
+        return r
     n = z3.simplify(z3.If(hi >= lo, hi - lo, 0)) if concrete(lo) != 0 else z3.simplify(z3.If(hi >= 0, hi, 0))
     c = concrete(hi - lo)
     if c is not None:
@@ -131,6 +139,8 @@ def arange(*a):
         n = z3.simplify(hi - lo)
     r = SArr((n,), (lambda i: i) if concrete(lo) == 0 else (lambda i: i + lo), 'i', incr=True)
     r.member = lambda v: z3.And(lo <= v, v < hi)
+    r.affine = lo
+    r.nonneg = concrete(lo) is not None and concrete(lo) >= 0
     return r
 
 
@@ -304,7 +314,7 @@ def isnan(a):
 
 
 def logical_and(a, b):
-    return a & b
+    return a & b            # (SArr.__and__ records the index interval when both operands are half-lines of one np.arange)
 
 
 def logical_or(a, b):
@@ -380,6 +390,22 @@ def where(b, *rest):
     pw = _param_where(c, b, n, ci)
     if pw is not None:
         return (pw,)
+    iv = getattr(b, 'interval', None)
+    if iv is not None:
+        # the mask is (provably) an index interval: ASSUMED numpy contract  np.where(lo <= i < hi)[0] == arange(lo, hi)
+        lo_i, hi_i = iv
+        if not Ctx.spec:
+            q = _qv(1)[0]
+            c.obl.append(Obligation('interval-mask-is-exactly-the-interval', list(c.pc) + [z3.And(0 <= q, q < n)], b.elem(q) == z3.And(lo_i <= q, q < hi_i), 'safety', list(c.prefix[:c.pos])))
+        lo_n = c.fresh('ivlo', I)
+        ln = c.fresh('ivlen', I)
+        c.assume(z3.And(lo_n == lo_i, ln == z3.If(hi_i > lo_i, hi_i - lo_i, 0)))
+        r = SArr((ln,), lambda jx: lo_n + jx, 'i', incr=True)
+        r.member = lambda v: z3.And(lo_i <= v, v < hi_i)
+        r.where_of = b
+        r.pos = lambda i_: i_ - lo_n
+        r.nonneg = True
+        return (r,)
     cache = c.ghost.setdefault('where_cache', {})
     if key not in cache:
         # the textual key is not canonical (argument order of and/or): fall back to a semantic comparison of the mask terms
